@@ -68,8 +68,9 @@ fn fresh_128(host_rom: bool) -> Emu {
     o.rom = !host_rom;
     let mut e = rig::emu_stepping(&o);
     if host_rom {
+        // the host assets deliver short reads (a valid LoadableAsset may): 1000 bytes / 16383 bytes per call
         let pages = (0..2u8)
-            .map(|p| rig::VAsset::new((0..16384).map(|i| marker_rom(p, i)).collect()))
+            .map(|p| rig::VAsset::new((0..16384).map(|i| marker_rom(p, i)).collect()).chunked(if p == 0 { 1000 } else { 16383 }))
             .collect();
         e.load_rom(rig::VRomSet { pages }).ok().expect("load_rom");
     }
